@@ -21,7 +21,7 @@ class UnimodalPdf(DensityEstimator):
     """
 
     def __init__(self, sample: ndarray):
-        self.sample = array(sample).flatten()
+        self.sample = array(sample, dtype=float).flatten()
         self.n_samps = self.sample.size
 
         # chebyshev quadrature weights and axes
